@@ -324,8 +324,8 @@ def oracle_bound_op(o, b, m, env):
         if o.gate.num_qubits <= 2 and not has_pe(o.gate):
             st, res = outcome(lambda: (numeric(b.gate.matrix, env),
                                        numeric(o.gate.matrix.subs(m, simultaneous=True), env)), timeout=20)
-            if st != "ok":
-                return f"matrix of {o.gate} / {b.gate}: {res}"
+            if st != "ok":     # sympy can take minutes to build a matrix from a large argument: no verdict then
+                return "" if res == "Timeout" else f"matrix of {o.gate} / {b.gate}: {res}"
             if res[0].shape != res[1].shape or not np.allclose(res[0], res[1], atol=1e-9):
                 return f"matrix of {b.gate} differs from the substituted matrix of {o.gate}"
     return ""
@@ -534,7 +534,7 @@ def gen(rng, tier):
             yield dict(kind="replace", gate=j, ps=ps, envs=envs)
         else:
             width = rng.randint(1, 3)
-            ops = g_ops(rng, syms, True, False, rng.randint(1, 4), width, always_symbolic=True, gates_only=True)
+            ops = g_ops(rng, syms, True, True, rng.randint(1, 4), width, always_symbolic=True, gates_only=True)
             total = rng.random() < 0.5
             m = [[s, g_number(rng, False) if total else ["add", ["sym", rng.choice(extra[:3])], g_number(rng, False)]]
                  for s in syms]
@@ -654,7 +654,7 @@ def run_case(inp):
                 s2, res = outcome(lambda: (numeric(out.to_unitary(), env),
                                            numeric(sympy.Matrix(c.to_unitary()).subs(m, simultaneous=True), env)), timeout=60)
                 if s2 != "ok":
-                    msg = f"to_unitary raised {res}"
+                    msg = "" if res == "Timeout" else f"to_unitary raised {res}"
                 elif not np.allclose(res[0], res[1], atol=1e-8):
                     msg = "matrix of the bound circuit differs from the substituted matrix of the circuit"
         return dict(chk=chk, oracle_ok=not msg, oracle_msg=msg, kind=kind, nontrivial=True)
